@@ -499,6 +499,11 @@ def check_get_concentration(c, solute, units, result, exc):
         return
     if den == 'U':
         return
+    if den == 'L' and 0 <= R.measure(c.contents, 'L') <= 1e3 * (cf.q * cf.vol_prefix * (len(c.contents) + 2) + H1.storage_noise_in(c.contents, 'L')):
+        # what the container holds is within a thousand *storage* quanta of nothing (the residue of an emptied vessel): its
+        # stored volume may be 0 while a few quanta of content remain - a concentration per volume means nothing there
+        M.count('OBS.below_storage_resolution')
+        return
     M.count('OBS.get_concentration')
     exp = R.concentration(c.contents, solute, num, den)
     if exc is not None:
